@@ -2948,6 +2948,29 @@ func suffixStepEdgeConstraints(step *TraversalStep) pgsql.Expression {
 	return localConstraints
 }
 
+// suffixConstraintIsReachable reports whether a constraint taken from a suffix step can be evaluated inside the
+// expansion that the suffix is pushed into. By then the constraint is already rewritten against frames. The
+// expansion's own frame is rewritten once more when the expansion is rendered, and the frame before it is in
+// scope there; a later suffix step's frame is not, because it is defined after the expansion.
+func suffixConstraintIsReachable(currentStep *TraversalStep, suffixSteps []*TraversalStep, constraint pgsql.Expression) bool {
+	if constraint == nil {
+		return true
+	}
+
+	references, err := ExtractSyntaxNodeReferences(constraint)
+	if err != nil {
+		return false
+	}
+
+	for _, step := range suffixSteps {
+		if step != nil && step.Frame != nil && step.Frame.Binding != nil && references.Contains(step.Frame.Binding.Identifier) {
+			return false
+		}
+	}
+
+	return true
+}
+
 func expansionSuffixTerminalSatisfaction(currentStep *TraversalStep, suffixSteps []*TraversalStep) (pgsql.Expression, bool) {
 	if currentStep == nil ||
 		currentStep.Expansion == nil ||
@@ -2977,6 +3000,11 @@ func expansionSuffixTerminalSatisfaction(currentStep *TraversalStep, suffixSteps
 
 		if idx > 0 && suffixSteps[idx-1].RightNode.Identifier != step.LeftNode.Identifier {
 			break
+		}
+
+		if !suffixConstraintIsReachable(currentStep, suffixSteps, step.RightNodeConstraints) ||
+			!suffixConstraintIsReachable(currentStep, suffixSteps, suffixStepEdgeConstraints(step)) {
+			return nil, false
 		}
 
 		leftEndpoint, validDirection := suffixEdgeLeftEndpoint(step.Edge.Identifier, step.Direction)
